@@ -56,6 +56,16 @@ theorem step_numDigit (st : St) (f : Fast) (d : UInt8) (l : Bool) (neg : Bool) (
   refine ⟨{ inFast := f.inFast && !(BigLimit ≤ st.num.i), tokFast := f.tokFast, nlSkipping := false }, rfl, ?_⟩
   simp [step, stepCore, stepAct, stepActP, nextFast, deliver, refTables, expectedFin, hm, hf, hact, hadd, hnle]
 
+/-- the same with the fast-path record spelled out: below the limit the integer loop stays in the state it is in -/
+theorem step_numDigitF (st : St) (f : Fast) (d : UInt8) (l : Bool) (neg : Bool) (v : Nat) (hm : st.mode = .digit)
+    (hf : f.nlSkipping = false) (hd : isDigitB d) (hn : NumOK st.num neg v) (hv : v < 922337203685477580) :
+    step refTables {} st f d l = .ok ({ st with num := st.num.addDigit d },
+      { inFast := f.inFast, tokFast := f.tokFast, nlSkipping := false }, false) := by
+  obtain ⟨hok, hadd, hnle⟩ := NumOK_digit st.num neg v d hn hv hd
+  have hact := digit_numDigit d hd
+  rw [hadd]
+  simp [step, stepCore, stepAct, stepActP, nextFast, deliver, refTables, expectedFin, hm, hf, hact, hadd, hnle]
+
 theorem d19_digit (d : UInt8) (h : Json.Spec.isDigit19 d = true) : isDigitB d ∧ 1 ≤ dval d := by
   simp only [Json.Spec.isDigit19, Bool.and_eq_true, decide_eq_true_eq, UInt8.le_iff_toNat_le] at h
   have h1 : (49 : UInt8).toNat = 49 := rfl
